@@ -176,6 +176,11 @@ class Interp:
             return self.eval(n.body, fr)
         return self.eval(n.orelse, fr)
 
+    def e_NamedExpr(self, n, fr):
+        v = self.eval(n.value, fr)
+        self.assign_target(n.target, v, fr)
+        return v
+
     def e_Lambda(self, n, fr):
         return self.make_function(n, fr, '<lambda>')
 
@@ -252,6 +257,20 @@ class Interp:
         return self.call(fn, args, kwargs, n)
 
     def e_ListComp(self, n, fr):
+        # [bytes(c) for c in <list of byte strings of symbolic length>]: an element-wise copy.  The result has the same
+        # length and element lengths; element CONTENTS are left unconstrained (over-approximation) and the source is
+        # remembered in .snapshot_of
+        if len(n.generators) == 1 and not n.generators[0].ifs and isinstance(n.generators[0].target, ast.Name) \
+                and isinstance(n.elt, ast.Call) and isinstance(n.elt.func, ast.Name) and n.elt.func.id in ('bytes', 'bytearray') \
+                and len(n.elt.args) == 1 and isinstance(n.elt.args[0], ast.Name) and n.elt.args[0].id == n.generators[0].target.id \
+                and not n.elt.keywords:
+            from .symseq import BufSeq
+            src = self.eval(n.generators[0].iter, fr)
+            if isinstance(src, BufSeq) and not isinstance(simp(zint(src.n)), int):
+                r = BufSeq(self.run, src.n, self.run.fresh_row(src.label + '_copy_cells'), z3.K(INT, z3.IntVal(0)), src.lens,
+                           n.elt.func.id, False, src.label + '_copy')
+                r.snapshot_of = src
+                return r
         out = []
         self._comp(n.generators, 0, fr, lambda f: out.append(self.eval(n.elt, f)), n)
         return out
